@@ -57,6 +57,11 @@ def mk_awaitable(kind, **fields):
 
 
 def do_await(E, v, node, fr):
+    h = E.builtins.get('__await_ext__')
+    if h is not None:
+        r = h(E, v, node, fr)
+        if r is not None:
+            return r[0]
     if isinstance(v, Obj) and v.cls == 'Awaitable':
         k = v.fields['kind']
         fn = AWAIT.get(k)
